@@ -240,9 +240,15 @@ def _f48(name):
     return k == "attribute" and a[0] == "OptA"
 
 
+def _f49(name):
+    k, a = _cell(name)
+    return k == "range" and (a[0] in ("Float", "OptInt") or a[1] in ("Float", "OptInt")) and \
+        a[0] in ("Float", "OptInt", "Int") and a[1] in ("Float", "OptInt", "Int")
+
+
 # cells of the operator matrix that open findings occupy (exclusion by construction: the cell itself)
 MATRIX_EXCLUSIONS = {"no_number_right_of_str_plus": _f10, "no_float_or_nullable_bitwise": _f47,
-                     "no_nullable_receiver_field": _f48}
+                     "no_nullable_receiver_field": _f48, "no_float_or_nullable_range_bound": _f49}
 
 
 class C04:
